@@ -35,3 +35,14 @@ def fast_arena():
         ctypes.PyDLL(so).verif_install()
     except Exception:
         pass
+
+def rmtree(path):
+    """remove a scratch tree (we run as root, so modes do not get in the way); never forks"""
+    import shutil
+    def onerr(fn, p, exc):
+        try:
+            os.chmod(os.path.dirname(p), 0o700); os.chmod(p, 0o700)
+            fn(p)
+        except OSError:
+            pass
+    shutil.rmtree(path, onerror=onerr)
